@@ -624,6 +624,8 @@ where
     B: Send + 'static,
 {
     fn drop(&mut self) {
+        #[cfg(feature = "verif-hooks")]
+        use crate::verif_hooks::shim as tokio;
         if let Some(connection) = self.connection.take() {
             if !connection.can_share() {
                 tokio::spawn(WhenReady {
